@@ -85,6 +85,8 @@ type End struct {
 	Auto   bool // transparent link: ops complete eagerly, not journaled
 	Stream bool // deliveries towards this end may split/coalesce write boundaries
 	Owned  bool // scheduler-owned sink (no goroutine behind it)
+	// Datagram: a connected UDP socket: a write larger than the largest datagram fails
+	Datagram bool
 
 	Recv    []byte
 	OnRecv  func(b []byte)
@@ -332,6 +334,7 @@ func (timeoutErr) Is(err error) bool { return err == os.ErrDeadlineExceeded }
 var errReset = &net.OpError{Op: "read", Net: "tcp", Err: syscall.ECONNRESET}
 var errPipe = &net.OpError{Op: "write", Net: "tcp", Err: syscall.EPIPE}
 var errRefused = &net.OpError{Op: "dial", Net: "tcp", Err: syscall.ECONNREFUSED}
+var errMsgSize = &net.OpError{Op: "write", Net: "udp", Err: syscall.EMSGSIZE}
 
 // ---------------------------------------------------------------------------------------
 // scheduler side
@@ -598,6 +601,14 @@ func (s *Sim) intake(o *op) {
 	case opRead, opWrite:
 		if o.e.Closed {
 			o.err = net.ErrClosed
+			close(o.wake)
+			return
+		}
+		if o.kind == opWrite && o.e.Datagram && len(o.data) > 65507 {
+			// sendto(2) on a UDP socket: EMSGSIZE, nothing is sent
+			o.err = errMsgSize
+			s.J.Add(s, "write-emsgsize", "%s n=%d", o.e.Name, len(o.data))
+			s.Count("fault.udp.message_too_long")
 			close(o.wake)
 			return
 		}
@@ -901,6 +912,7 @@ func (s *Sim) completeDial(o *op) {
 		// connecting a UDP socket always succeeds; datagrams to nowhere vanish
 		a, b := s.pair(s.uniq(o.from+">"+lkey), o.from, o.to, false)
 		b.Owned = true
+		a.Datagram = true
 		rec.Verdict, rec.End = "udp-void", a
 		s.DialLog = append(s.DialLog, rec)
 		s.J.Add(s, "dial", "%s udp to nowhere", a.Name)
@@ -934,6 +946,7 @@ func (s *Sim) completeDial(o *op) {
 	a, b := s.pair(s.uniq(o.from+">"+o.to), o.from, o.to, false)
 	b.Stream = l.Stream
 	a.Stream = l.StreamBack
+	a.Datagram = lkey != o.to
 	rec.Verdict = "ok"
 	rec.End = a
 	s.DialLog = append(s.DialLog, rec)
